@@ -333,13 +333,19 @@ def rule_encoder_tables(ctx, cfg, r):
                % next((i for i in range(288) if lit[i] != rfc.FIXED_LITLEN_LENGTHS[i]), None))
 
 
-def fixed_lengths_enc(c, f):
-    """start_static_block fills self.code_sizes[0][a..b] / [1][..] with constants"""
+def fixed_lengths_enc(c, f, per_row=False):
+    """start_static_block fills self.code_sizes[0][a..b] / [1][..] with constants.
+    per_row: -> [(row, lit, dist)] for every returning row (what THAT path writes), else the union over all rows"""
     ev = paths.Evaluator(c, max_paths=500)
     lit = [None] * 288
     dist = [None] * 32
     rows = [x for x in ev.run(f)]
+    out_rows = []
     for x in rows:
+        if per_row:
+            lit = [None] * 288
+            dist = [None] * 32
+            out_rows.append((x, lit, dist))
         pending = {}
         for e in x.effects:
             if e[0] == "call" and ("IndexMut" in e[1]) and e[2][1][0] == "agg" and ("Range" in e[2][1][1]):
@@ -365,4 +371,32 @@ def fixed_lengths_enc(c, f):
                         arr = lit if tbl == 0 else dist
                         for i in range(vals[0], min(vals[1], len(arr))):
                             arr[i] = const_val(e[2][1])
+    if per_row:
+        return out_rows
     return lit, dist, None
+
+
+def rule_fixed_tables_every_block(ctx, cfg, r):
+    """A fixed-Huffman block is coded with the fixed tables: start_static_block (re)writes the RFC 1951 fixed code lengths into both tables and
+    rebuilds the codes (optimize_table, static) on EVERY path — the same arrays are overwritten by every dynamic block in between, so
+    nothing may be cached across blocks."""
+    c = ctx.crate(cfg)
+    h = c.fn("deflate::core::HuffmanOxide::start_static_block")
+    ctx.touched(h)
+    n = 0
+    for x, lit, dist in fixed_lengths_enc(c, h, per_row=True):
+        if x.outcome[0] != "return":
+            continue
+        n += 1
+        opt = [e for e in x.effects if e[0] == "call" and e[1].endswith("HuffmanOxide::optimize_table")]
+        tabs = sorted(const_val(e[2][1]) for e in opt if is_const(e[2][1]) and len(e[2]) > 4 and is_const(e[2][4]) and const_val(e[2][4]) == 1)
+        fills = [i for i, e in enumerate(x.effects) if e[0] == "call" and e[1].endswith("::fill")]
+        opts = [i for i, e in enumerate(x.effects) if e[0] == "call" and e[1].endswith("HuffmanOxide::optimize_table")]
+        if lit == rfc.FIXED_LITLEN_LENGTHS and dist[:32] == rfc.FIXED_DIST_LENGTHS and tabs[:2] == [0, 1] and fills and opts and max(fills) < min(opts):
+            r.ok(h.name, "fixed-tables-rebuilt", "this path writes the RFC 1951 fixed lengths and rebuilds both code tables")
+        else:
+            r.fail(h.name, "fixed-tables-rebuilt", "start_static_block can announce a fixed block without (re)building the fixed tables on this path "
+                   "(lengths complete: %s, optimize_table(static) for tables %s): after a dynamic block the block would be coded with that block's codes"
+                   % (lit == rfc.FIXED_LITLEN_LENGTHS and dist[:32] == rfc.FIXED_DIST_LENGTHS, tabs), where=first_span(x), path=row_path(x, 6))
+    if n == 0:
+        r.fail(h.name, "fixed-tables-rebuilt", "no returning path of start_static_block found")
